@@ -1,0 +1,12 @@
+//go:build verif
+
+package storage
+
+// VerifClose closes the bolt file behind a DiskStorage so that the same process can open it again
+// (the harness restarts the service from the on-disk state).
+func VerifClose(s Storage) error {
+	if d, ok := s.(*DiskStorage); ok {
+		return d.db.Close()
+	}
+	return nil
+}
